@@ -206,7 +206,21 @@ def suite_solve(ctx, case):
     S0 = pyPRISM.calculate.structure_factor(p0).data; S1 = pyPRISM.calculate.structure_factor(p1).data
     tol = 1e-4 + 1e3 * (f0 + f1)
     e = float(np.max(np.abs(g1 - sel(g0)))); eS = float(np.max(np.abs(S1 - sel(S0))))
-    ctx.pred('solve', case, e <= tol and eS <= tol * max(1.0, float(np.max(np.abs(S0)))), 'paired solves (%s) disagree: dg=%.3g dS=%.3g (residuals %.2g, %.2g)' % (kind, e, eS, f0, f1), key='C04:solve-' + kind)
+    ok = e <= tol and eS <= tol * max(1.0, float(np.max(np.abs(S0))))
+    if not ok:
+        # the non-linear equations can have several roots, and which one krylov reaches from gamma = 0 depends on the order of the
+        # unknowns.  The property is about the solutions: the transformed FIRST solution must solve the SECOND system equally well.
+        # If it does, the two solves simply found different roots (counted, not a violation); if it does not, equivariance is broken.
+        L = sd['dom'][0]
+        x0 = np.asarray(p0.minimize_result.x, dtype=float).reshape((L, n, n))
+        with np.errstate(all='ignore'):
+            y = G.build_system(sd2).createPRISM().cost(sel(x0).reshape(-1).copy())
+        f01 = float(np.max(np.abs(y))) if np.all(np.isfinite(y)) else float('inf')
+        if f01 <= 1e-7 + 100 * f0:
+            ctx.dist['solve:paired-solves-found-different-roots'] += 1; return
+        ctx.pred('solve', case, False, 'paired solves (%s) disagree: dg=%.3g dS=%.3g (residuals %.2g, %.2g) and the transformed first solution is not a solution of the second system (residual %.3g)' % (kind, e, eS, f0, f1, f01), key='C04:solve-' + kind)
+        return
+    ctx.pred('solve', case, ok, 'paired solves (%s) disagree: dg=%.3g dS=%.3g (residuals %.2g, %.2g)' % (kind, e, eS, f0, f1), key='C04:solve-' + kind)
 
 def suite_split_solvent(ctx, case):
     """a homopolymer P in a solvent S  vs  its two labelled halves A|B in S (a rank-3 system with a non-zero cross omega)"""
